@@ -2,6 +2,7 @@ package parser
 
 import (
 	"regexp"
+	"strings"
 
 	"github.com/robertkrimen/otto/ast"
 	"github.com/robertkrimen/otto/file"
@@ -138,6 +139,14 @@ func (p *parser) parseRegExpLiteral() *ast.RegExpLiteral {
 		flags = p.literal
 		endOffset = p.chrOffset
 		p.next()
+	}
+
+	// 7.8.5: flags that new RegExp would reject (15.10.4.1) are an early error.
+	for i, chr := range flags {
+		if !strings.ContainsRune("gim", chr) || strings.ContainsRune(flags[:i], chr) {
+			p.error(idx, "Invalid regular expression flags: %s", flags)
+			break
+		}
 	}
 
 	var value string
